@@ -13,6 +13,15 @@ var passCtr atomic.Uint64
 // level checks that do not need the scheduler).
 func SetPassSeed(s uint64) { passSeed.Store(s); passCtr.Store(0) }
 
+// mapRotate >= 0 replaces the seeded permutation by "sorted order rotated by n": a caller that needs every
+// possible outcome of an order-dependent loop (last one wins) enumerates n = 0..len-1 instead of sampling.
+var mapRotate atomic.Int64
+
+func init() { mapRotate.Store(-1) }
+
+// SetMapRotate switches MapKeys to the rotated order (n >= 0) or back to the seeded permutation (n < 0).
+func SetMapRotate(n int64) { mapRotate.Store(n) }
+
 // MapKeysUnsortable counts key sets that could only be ordered by their
 // printed form (pointer keys would make replay diverge).
 var MapKeysUnsortable atomic.Int64
@@ -80,6 +89,13 @@ func MapKeys[M ~map[K]V, K comparable, V any](m M) []K {
 		MapKeysUnsortable.Add(1)
 	}
 	sort.Slice(keys, func(i, j int) bool { return lessAny(any(keys[i]), any(keys[j])) })
+	if rot := mapRotate.Load(); rot >= 0 {
+		n := int(rot % int64(len(keys)))
+		out := make([]K, 0, len(keys))
+		out = append(out, keys[n:]...)
+		out = append(out, keys[:n]...)
+		return out
+	}
 	var r uint64
 	if Mode() == 1 {
 		r = Rand(uint64(len(keys)))
